@@ -48,6 +48,52 @@ theorem rl_clear_and_swap_under_lock (f : S_rulelist_Refreshable) (stale : Bool)
       names out.2.2 = ["Refresh", "NewRuleStorage", "Lock", "Clear", "NewDNSEngine", "set f.engine", "Unlock"]) := by
   cases h1 : dl.2 <;> cases h2 : st.2 <;> simp [rl_Refresh, names, h1, h2]
 
+/-- Rule-list / blocked-service / safe-search result cache: `itemFromCache` never panics and reports a
+hit exactly when the LRU holds an item under the key AND that item's host is the host asked for; the
+item returned on a hit is the one found; nothing but the one `Get` touches the cache.  (The model's
+`RL.lookup` is this decision with `S := ` the key type.) -/
+theorem rl_item_hit_iff_same_host (key : Int) (host : String) (c : S_rulelist_CacheItem) :
+    rl_itemFromCache key host (some c, true) =
+      some (if c.host = host then (some c, true, [("Get", [toString key])])
+            else (none, false, [("Get", [toString key])])) ∧
+    (∀ x, rl_itemFromCache key host (x, false) = some (none, false, [("Get", [toString key])])) := by
+  constructor
+  · by_cases h : c.host = host <;> simp [rl_itemFromCache, h]
+  · intro x; simp [rl_itemFromCache]
+
+/-- The same for the hash-prefix result cache (the collision warning is logging only). -/
+theorem hp_item_hit_iff_same_host (f : S_hashprefix_Filter) (key : Int) (host : String) (c : S_hashprefix_cacheItem) :
+    hp_itemFromCache f key host (some c, true) =
+      some (if c.host = host then (some c, true, [("Get", [toString key])])
+            else (none, false, [("Get", [toString key])])) ∧
+    (∀ x, hp_itemFromCache f key host (x, false) = some (none, false, [("Get", [toString key])])) := by
+  constructor
+  · by_cases h : c.host = host <;> simp [hp_itemFromCache, h]
+  · intro x; simp [hp_itemFromCache]
+
+/-- `filter.DNSResult`: with a real cache the key is `NewCacheKey(host, rrType, IN, isAns)`; a hit
+returns the cached result without consulting the engine and without writing; a miss consults the
+engine once and stores under the very key that was looked up; with `ResultCacheEmpty` no key is
+computed at all. -/
+theorem one_repr : toString (1 : Int) = "1" := by decide
+
+theorem rl_dnsresult_hit_or_compute (f : S_rulelist_filter) (cn host : String) (qt : Int) (isAns : Bool)
+    (emp : S_agdcache_Empty) (isEmpty : Bool) (k : Int) (it : Option S_rulelist_CacheItem) (hit : Bool)
+    (cached : AbsPtr) (mr : AbsPtr × Bool) (nr : Int) :
+    let out := rl_DNSResult f cn host qt isAns (emp, isEmpty) k (it, hit) cached mr nr
+    (isEmpty = true → names out.2 = ["MatchRequest", "Set"]) ∧
+    (isEmpty = false → hit = true → out = (cached,
+        [("NewCacheKey", [host, toString qt, toString (1 : Int), toString isAns]), ("itemFromCache", ["_", toString k, host])])) ∧
+    (isEmpty = false → hit = false →
+        out.2 = [("NewCacheKey", [host, toString qt, toString (1 : Int), toString isAns]), ("itemFromCache", ["_", toString k, host]),
+                 ("MatchRequest", ["_"]), ("Set", [toString k, "_"])]) := by
+  refine ⟨?_, ?_, ?_⟩
+  · intro h; subst h
+    by_cases hc : (!mr.2 && decide (nr = 0)) = true <;> simp [rl_DNSResult, names, hc]
+  · intro h1 h2; subst h1; subst h2; simp [rl_DNSResult]
+  · intro h1 h2; subst h1; subst h2
+    by_cases hc : (!mr.2 && decide (nr = 0)) = true <;> simp [rl_DNSResult, hc]
+
 end Agd.Tie.TrC12
 
 #print axioms Agd.Tie.TrC12.translation_complete
@@ -55,3 +101,6 @@ end Agd.Tie.TrC12
 #print axioms Agd.Tie.TrC12.hp_clear_bumps_generation
 #print axioms Agd.Tie.TrC12.hp_set_only_same_generation
 #print axioms Agd.Tie.TrC12.rl_clear_and_swap_under_lock
+#print axioms Agd.Tie.TrC12.rl_item_hit_iff_same_host
+#print axioms Agd.Tie.TrC12.hp_item_hit_iff_same_host
+#print axioms Agd.Tie.TrC12.rl_dnsresult_hit_or_compute
